@@ -14,6 +14,10 @@ CLAIMED = {
    text="Coq theorems over a faithful executable model of IPv4Reassembler/IPv4Stream: for every datagram, every partition of its payload into non-empty fragments at multiples of 8, every arrival order with duplicates and every interleaving with other keys, the stream is declared complete iff all fragments arrived (tiling lemma), the completing fragment yields REASSEMBLED with exactly the original payload and the first fragment's header, all others FRAGMENTED, unfragmented packets are untouched and other keys' streams are not disturbed. The hand-written model is tied to the code by running the extracted model and the real reassembler (raw IPv4 packets parsed by libtins) on the same scripts; a reference reassembler judges the C++ directly.",
    note="Trusted: Coq kernel, extraction, harness/h_ipr.cpp, the abstraction of the upper-layer parser as a predicate (UDP/raw/TCP-short exercised), std::vector/std::map behaviour as modelled. Overlapping fragments are outside the property and only compared model-vs-code.",
    tech="Coq proof (invariant + tiling lemma, all partitions/orders) + model/code correspondence + reference-reassembler oracle", ref="3/C08"),
+ 'C13': dict(
+   text="The class table (flag, pdu_type of a live instance, matches_flag for every flag, is_base_of for every class) is regenerated on every run by compiling and running a generated program against the current headers; Coq proves by complete evaluation of that finite table (forallb/vm_compute lifted with forallb_forall) that for every concrete class K and every askable class T a successful find_pdu/tins_cast implies K is-a T, and that a search by the exact class succeeds; the same program evaluates find_pdu, tins_cast and dynamic_cast on live objects for all pairs and the results are compared with the table-derived predictions. PDUCacher<X> refutes the property (theorem C13_cacher_refuted_by + witness) and is a recorded known finding.",
+   note="Trusted: Coq kernel (vm_compute), translate/gen_classtable.py (header scan + generated C++), g++; classes without a default constructor and abstract classes (Dot11ControlTA, Dot11ManagementFrame, EAPOL) only appear as targets T, not as K.",
+   tech="Coq proof by exhaustive evaluation of a generated finite table + live-object cross-check", ref="3/C13"),
 }
 ALL = ['C%02d' % i for i in range(1, 20)]
 NA_REASON = "check not built yet in this session (machinery is being extended property by property; see DESIGN.md section 7)"
